@@ -21,7 +21,7 @@ EXPLANATION = (
 ASSUMPTIONS = [
     "denominators not proven zero on a path are non-zero; floats behave as reals in the identities",
 ]
-TECHNIQUE = "polynomial identity checking on every return path (F2), finite ordering domains (F4), co-update path rule (F6); abstract interpretation of proj_segment on 360 segment / query cases and of the mapOnTrack chain on 62 polyline / query configurations incl. a reference track moved in place (bounded case domains)"
+TECHNIQUE = "abstract interpretation of the line helpers (cartesienne, dist_point_droite, projection_droite) on 30 segments x 5 points, of proj_segment on 1300 segment / query cases (projected-coordinate magnitudes, centimetre segments, steep and vertical-beyond-end segments) and of the mapOnTrack chain on 62 polyline / query configurations incl. a reference track moved in place (bounded case domains), which decide the clauses; polynomial identity checking on every return path (F2), finite ordering domains (F4), co-update path rule (F6) where the code is in the shape the symbolic reader follows"
 
 
 def _seg_state():
@@ -765,10 +765,11 @@ def rule_M(ctx):
             ref = refs[lname] = Track([O(P(p_[0], p_[1], 3.0 * k_)) for k_, p_ in enumerate(pts)])
             qs = queries[lname]
         # (queries and reference vertices carry altitudes - GPS fixes do: the projection, its distance and its segment are planimetric)
-        src = Track([O(P(q_[0], q_[1], 12.5 + k_)) for k_, q_ in enumerate(qs)])
+        dz = 1e-5 if 'gentle slope' in lname else 1.0          # (the creeping receiver creeps in altitude too)
+        src = Track([O(P(q_[0], q_[1], 12.5 + dz * k_)) for k_, q_ in enumerate(qs)])
         try:
             out = run(src, ref)
-            singles = [run(P(q_[0], q_[1], 12.5 + k_), ref) for k_, q_ in enumerate(qs)]
+            singles = [run(P(q_[0], q_[1], 12.5 + dz * k_), ref) for k_, q_ in enumerate(qs)]
         except orders.Unsupported as ex:
             raise shape_error('mapOnTrack not interpretable: %s' % ex, g.loc())
         except (IndexError, KeyError, TypeError, AttributeError, ZeroDivisionError, ValueError, orders.Raised) as ex:
